@@ -7,7 +7,7 @@ import z3
 from . import seqs as SQ
 
 from .engine import Closure, OutOfSubset, PyConst, lift, is_none
-from .types import MObj, TBool, TDict, TEnum, TInt, TNone, TObj, TOpt, TReal, TRec, TSeq, TSet, TStr, TTup, V
+from .types import TKSet, MObj, TBool, TDict, TEnum, TInt, TNone, TObj, TOpt, TReal, TRec, TSeq, TSet, TStr, TTup, V
 
 MUTATORS = {"append", "add", "update", "extend", "pop", "insert", "clear", "remove", "discard", "setdefault", "sort"}
 
@@ -54,7 +54,11 @@ def _seq_of(eng, v, n, st):
     if isinstance(v, tuple) and not (v and isinstance(v[0], str)):
         return v
     if isinstance(v, (MObj,)) or (isinstance(v, V) and isinstance(v.ty, TObj)):
-        ln, at = eng.iter_view(v, n, st)
+        k = eng.reg.lookup_method(v.cls if isinstance(v, MObj) else v.ty.name, "__iter__")
+        if k is not None:
+            r = eng.apply_contract(k, [v], {}, n, st)
+            if isinstance(r, V) and isinstance(r.ty, TSeq):
+                return r
         raise OutOfSubset(n, "list(object)")
     raise OutOfSubset(n, f"list/tuple of {v!r}")
 
@@ -466,7 +470,7 @@ def method(eng, recv, meth, args, kw, n, st):
         if isinstance(ty, TSeq):
             if meth == "index":
                 x = eng.coerce(args[0], ty.elem, n)
-                eng.require(st, "safe.index", n, SQ.has(recv.t, x.t), "ValueError")
+                eng.require(st, "safe.index-of", n, SQ.has(recv.t, x.t), "ValueError")
                 return V(TInt, SQ.index_of(recv.t, x.t))
             if meth == "copy":
                 return recv
@@ -519,6 +523,25 @@ def mutate(eng, cur, meth, args, n, st):
                 if isinstance(o, V) and isinstance(o.ty, TSeq):
                     o = b_set(eng, [o], {}, n, st)
                 return V(ty, z3.SetUnion(cur.t, o.t))
+        if isinstance(ty, TKSet):
+            s_ = ty.sort()
+            keys, val = s_.keys(cur.t), s_.val(cur.t)
+            if meth == "add":
+                x = args[0]
+                kk, vv = ty.rec.get(x.t, ty.keyfield), ty.rec.get(x.t, ty.valfield)
+                present = SQ.has(keys, kk)
+                # python sets keep the element that is already present when an equal one is added
+                return V(ty, z3.If(present, cur.t, s_.mk(SQ.append1(keys, kk), z3.Store(val, kk, vv))))
+            if meth == "update" and isinstance(args[0], V) and isinstance(args[0].ty, TKSet):
+                o = args[0]
+                r = eng.fresh(st, ty, "kupd")
+                x = z3.Const("ku!x", ty.k.sort())
+                ok, nk, rk = keys, s_.keys(o.t), s_.keys(r.t)
+                st.assume(SQ.forall([x], SQ.has(rk, x) == z3.Or(SQ.has(ok, x), SQ.has(nk, x)), patterns=[SQ.has(rk, x)]))
+                st.assume(SQ.forall([x], z3.Select(s_.val(r.t), x) == z3.If(SQ.has(ok, x), z3.Select(val, x), z3.Select(s_.val(o.t), x)),
+                                    patterns=[z3.Select(s_.val(r.t), x)]))
+                return r
+            raise OutOfSubset(n, f"mutator {meth} on a keyed set")
         if isinstance(ty, TDict):
             if meth == "update":
                 o = args[0]
